@@ -3,8 +3,11 @@ package grpctarget
 import (
 	"context"
 	"io"
+	"reflect"
 	"strings"
 	"sync"
+	"sync/atomic"
+	"time"
 
 	grpcscn "github.com/yandex/pandora/components/guns/grpc/scenario"
 	httpscn "github.com/yandex/pandora/components/guns/http_scenario"
@@ -38,10 +41,63 @@ func WrapGunFactory(rec *Rec, orig func() (core.Gun, error)) func() (core.Gun, e
 	}
 }
 
+// FirstShotDelay (set by the driver before the pool runs): every gun sleeps that long before its FIRST shot --
+// a target that is slow to answer the first request of a connection; the instance falls behind its schedule.
+var FirstShotDelay time.Duration
+
 type RecGun struct {
-	inner core.Gun
-	id    int
-	rec   *Rec
+	inner   core.Gun
+	id      int
+	rec     *Rec
+	started int32
+}
+
+// ObjID is the identity of an ammo OBJECT (pointer- or map-typed ammo; 0 when the ammo is a plain value).
+// Ids are handed out in the order objects are first seen; the registry is guarded by its own mutex.
+var (
+	objMu  sync.Mutex
+	objIDs = map[uintptr]int{}
+)
+
+func ObjID(a core.Ammo) int {
+	v := reflect.ValueOf(a)
+	if !v.IsValid() || (v.Kind() != reflect.Ptr && v.Kind() != reflect.Map) {
+		return 0
+	}
+	p := v.Pointer()
+	objMu.Lock()
+	defer objMu.Unlock()
+	id, ok := objIDs[p]
+	if !ok {
+		id = len(objIDs) + 1
+		objIDs[p] = id
+	}
+	return id
+}
+
+// RecProvider logs Acquire / Release with the identity of the ammo object and the goroutine.  Acquire is logged
+// AFTER the provider handed the object out and Release BEFORE it is given back, so the logged ownership
+// interval lies inside the real one: with a correct engine and provider logged intervals of one object never overlap.
+type RecProvider struct {
+	Inner core.Provider
+	Rec   *Rec
+}
+
+func (p *RecProvider) Run(ctx context.Context, deps core.ProviderDeps) error { return p.Inner.Run(ctx, deps) }
+
+func (p *RecProvider) Acquire() (core.Ammo, bool) {
+	a, ok := p.Inner.Acquire()
+	if ok && !p.Rec.Quiet {
+		p.Rec.Emit(E{"ev": "Acquire", "gid": Goid(), "obj": ObjID(a), "name": AmmoName(a)})
+	}
+	return a, ok
+}
+
+func (p *RecProvider) Release(a core.Ammo) {
+	if !p.Rec.Quiet {
+		p.Rec.Emit(E{"ev": "Release", "gid": Goid(), "obj": ObjID(a)})
+	}
+	p.Inner.Release(a)
 }
 
 func (g *RecGun) Bind(a core.Aggregator, deps core.GunDeps) error {
@@ -65,6 +121,9 @@ func AmmoName(a core.Ammo) string {
 		return x.Name
 	case interface{ Tag() string }: // decoded HTTP ammo (uri, http/json, ...)
 		return x.Tag()
+	case *map[string]interface{}: // the generic json provider's ammo
+		t, _ := (*x)["tag"].(string)
+		return t
 	}
 	return ""
 }
@@ -76,7 +135,14 @@ func (g *RecGun) Shoot(a core.Ammo) {
 	if strings.Contains(name, "~") {
 		_, tok = SplitTok(name)
 	}
-	g.rec.Emit(E{"ev": "ShootBegin", "gun": g.id, "gid": gid, "ammo": name, "tok": tok})
+	obj := 0
+	if !g.rec.Quiet {
+		obj = ObjID(a)
+	}
+	g.rec.Emit(E{"ev": "ShootBegin", "gun": g.id, "gid": gid, "ammo": name, "tok": tok, "obj": obj})
+	if FirstShotDelay > 0 && atomic.CompareAndSwapInt32(&g.started, 0, 1) {
+		time.Sleep(FirstShotDelay)
+	}
 	defer g.rec.Emit(E{"ev": "ShootEnd", "gun": g.id, "gid": gid})
 	g.inner.Shoot(a)
 }
@@ -107,7 +173,11 @@ func (a *RecAggregator) Run(ctx context.Context, deps core.AggregatorDeps) error
 }
 
 func (a *RecAggregator) Report(s core.Sample) {
-	if ns, ok := s.(*netsample.Sample); ok {
+	if ns, ok := s.(*netsample.Sample); ok && ns.Tags() == netsample.DiscardedShootTag {
+		// the engine's own sample for a shot it skipped (discard_overflow): no gun was involved
+		// (its errno field is set directly to DiscardedShootCodeError: phout writes a non-zero errno)
+		a.Rec.Emit(E{"ev": "Discarded", "gid": Goid(), "tag": ns.Tags(), "code": ns.ProtoCode(), "err": true})
+	} else if ok {
 		// what the gun hands over, read on the gun's goroutine at the moment of the hand-over
 		tag := ns.Tags()
 		base := tag
